@@ -6,6 +6,7 @@ INVARIANT ModelEndpointsExist
 INVARIANT ModelSiteInventory
 INVARIANT ModelFibres
 INVARIANT ModelContinuity
+INVARIANT ModelCrossed
 INVARIANT ModelAmpFaces
 INVARIANT ModelBlankAmps
 INVARIANT ModelPerDegree
